@@ -367,6 +367,39 @@ def run(tier: str) -> int:
                                   {"spec": pub, "door": door, "planned": m["error"][1], "reported": real.get("actual")})
             if len(samples) < 5 and mcls == "ok" and len(m["runs"]) > 2:
                 samples.append({"spec": pub, "runs": m["runs"][:4], "n": len(m["runs"])})
+        # ---- history: a source file rewritten at the same path between two expansions in one process -------------------
+        for r in range(10 if tier == "quick" else 80):
+            def one_source_spec():
+                src = gen_source(rnd, d, 0, [], f"rw{r}")
+                src["select"], src["rename"] = None, {}
+                return {"blocks": [{"mode": "by_position", "context": {}, "source": src}], "combine": "combinatorial", "max_runs": 1000}
+            first_spec = one_source_spec()
+            door = "yaml" if rnd.random() < 0.3 else "dataclass"
+            real_expand(first_spec, d, door)                                   # the first expansion reads the file
+            second = None
+            for _ in range(12):                                                # same path: same format again
+                cand = one_source_spec()
+                if cand["blocks"][0]["source"]["path"] == first_spec["blocks"][0]["source"]["path"]:
+                    second = cand
+                    break
+            if second is None:
+                continue
+            stats["rewritten_source_cases"] = stats.get("rewritten_source_cases", 0) + 1
+            real2 = real_expand(second, d, door)
+            ans = core.Driver().run([{"m": "c08.expand", "id": 0, "spec": model_spec(second)}])[0]
+            if "err" in ans:
+                continue
+            m2 = ans["ok"]
+            pub = json.loads(json.dumps({"first": first_spec, "second": second}, default=str))
+            if model_class(m2) == "ok" and "runs" in real2 and m2["runs"] != real2["runs"]:
+                rep.add_violation("stale-source-after-rewrite", "after a source file was rewritten at the same path, a second expansion in the same process "
+                                  "does not return the list documented for the new content", {"specs": pub, "door": door, "documented": m2["runs"][:10], "returned": real2["runs"][:10]})
+            elif model_class(m2) != "ok" and "runs" in real2:
+                rep.add_violation("stale-source-after-rewrite:not-rejected", "after a source file was rewritten at the same path, a specification that is now invalid is accepted",
+                                  {"specs": pub, "door": door, "model": m2, "returned": real2["runs"][:10]})
+            elif model_class(m2) == "ok" and "runs" not in real2:
+                rep.add_violation("stale-source-after-rewrite:rejected", "after a source file was rewritten at the same path, a valid specification is rejected",
+                                  {"specs": pub, "door": door, "real": real2})
         if disagreements:
             rep.add_broken(f"correspondence C08: error class differs on {len(disagreements)} specs, first {json.dumps(disagreements[0])[:500]}")
     promptness(rep, stats, tier)
